@@ -103,12 +103,12 @@ def units():
                                "implies(parse_host_key_size and (BLOB[4:4 + T0] == b'ssh-rsa' or BLOB[4:4 + T0] == b'ssh-ed25519'), self._KexDH__ca_key_type == old.self._KexDH__ca_key_type and self._KexDH__ca_n_len == old.self._KexDH__ca_n_len)",
                            ]), harness=None))
     # 3. recv_reply: any number of debug messages (loop cut), then the reply: only KexDHException can escape
-    dbg_loop = {1: dict(invariant=["True"], types={'packet_type': 'int', 'payload': 'bytes'})}
+    dbg_loop = {1: dict(header='while packet_type == Protocol.MSG_DEBUG', invariant=["True"], types={'packet_type': 'int', 'payload': 'bytes'})}
     U.append(Unit(Contract('KexDH.recv_reply', setup=setup_recv_reply, raises={}, may_raise={'KexDHException': 'True'}, loops=dbg_loop,
                            ensures=["True"]), harness=None))
     # 4. group-exchange init: request, (debug messages), group message -> p, g; then the DH init.  Only KexDHException can escape, and the
     #    exchange is started only with a modulus for which KexDH.send_init cannot fail (p >= 7: randrange(2, (p-1)//2) non-empty, pow modulus non-zero)
-    gex_loop = {1: dict(invariant=["True"], types={'packet_type': 'int', 'payload': 'bytes'})}
+    gex_loop = {1: dict(header='while packet_type == Protocol.MSG_DEBUG', invariant=["True"], types={'packet_type': 'int', 'payload': 'bytes'})}
     U.append(Unit(Contract('KexGroupExchange.send_init_gex', setup=setup_gex, raises={}, may_raise={'KexDHException': 'True'}, loops=gex_loop,
                            ensures=["self._KexDH__p >= 7"]), harness=None))
     return U
